@@ -198,3 +198,6 @@ func Ite[T any](c bool, a, b T) T {
 	}
 	return b
 }
+
+// Pick returns an arbitrary int in [lo,hi]; the executor case-splits over all of them.
+func Pick(name string, lo, hi int) int { return IntRange(name, lo, hi) }
